@@ -16,6 +16,7 @@ Families (parameters chosen so that the unchanged tree needs about a second for 
   open_comment_in_string   a default value "/*" followed by n one-line declarations, no "*/" anywhere   (text pre-passes)
   slashes_in_string        a default value "//" in every one of n declarations  (same)
   long_line        one declaration with n arguments on a single line            (line-oriented pre-passes)
+  long_word_default   defaults / initialisers with one long qualified name inside nested calls, braces, literals   (token-level regexes)
   op_nested        operator overloads whose operand/return type has template nesting depth d   (parse actions that walk types)
   tmpl_list_nested `template<T = {...}>` lists (class, method, static method, function) holding a type of depth d   (same)
   every_position_nested   the depth-d type as typedef, ctor/method/static/function argument and return, pair<>, property
@@ -99,12 +100,26 @@ def every_position_nested(d):
             "%s freeFn(const %s& x, %s y);\n}\n") % ((t,) * 13)
 
 
+def long_word_default(n):
+    """default values and initialisers holding one LONG contiguous word (a qualified name of n characters) inside expressions
+    that are not plain words: nested calls, nested braces, a char literal or a comment inside the brackets"""
+    w = ("ns::" + "VeryLongQualifiedIdentifierName" * 4)[:n]
+    return ("class Cfg {\n  Cfg();\n"
+            "  void a(int x = %s::Create(Inner(1, 2)));\n"
+            "  void b(double t = %s{{1, 2}, {3}}, int k = 0);\n"
+            "  void c(char sep = %s(',', ')'));\n"
+            "  void d(int v = %s(1 /* one */, 2)) const;\n"
+            "  static int e(string s = \"%s\", int n = %s<int, Inner<2>>::value);\n"
+            "};\nconst int kLimit = %s::limit(Inner(3));\n") % ((w,) * 7)
+
+
 FAMILIES = [
     ("ns_deep", ns_deep, [10, 14, 18, 22], [10, 14, 18, 22, 26, 30]),
     ("ns_deep_leafcls", ns_deep_leafcls, [14, 18, 22, 26], [14, 18, 22, 26, 30, 34]),
     ("open_comment_in_string", open_comment_in_string, [8, 16, 24, 32], [8, 16, 24, 32, 48, 64, 128]),
     ("slashes_in_string", slashes_in_string, [8, 16, 32], [8, 16, 32, 64, 128]),
     ("long_line", long_line, [50, 100, 200], [50, 100, 200, 400, 800]),
+    ("long_word_default", long_word_default, [12, 16, 20, 24, 28, 32], [12, 16, 20, 24, 28, 32, 48, 64, 96]),
     ("op_nested", op_nested, [8, 12, 16, 20, 24], [8, 12, 16, 20, 24, 28, 32]),
     ("tmpl_list_nested", tmpl_list_nested, [8, 12, 16, 20, 24], [8, 12, 16, 20, 24, 28, 32]),
     ("every_position_nested", every_position_nested, [8, 12, 16, 20, 24], [8, 12, 16, 20, 24, 28, 32]),
